@@ -718,7 +718,7 @@ func (e *Engine) useSpec(sf *SpecFunc) {
 }
 
 // specPrelude renders the definitions of all spec functions (dependency closed, in a stable order).
-func (e *Engine) specPrelude() string {
+func (e *Engine) specPrelude(formula string) string {
 	// collect all spec functions: cheap, define them all; the solver ignores unused ones.
 	var keys []string
 	for k := range e.cs.Specs {
@@ -775,9 +775,38 @@ func (e *Engine) specPrelude() string {
 		}
 		defs = append(defs, fmt.Sprintf("(%s %s (%s) %s %s)", kw, specSym(sf), strings.Join(ps, " "), ret, body.S))
 	}
-	// non-recursive definitions may depend on each other: order by dependency (simple fixpoint)
-	ordered := orderDefs(defs)
-	return strings.Join(decls, "\n") + "\n" + strings.Join(ordered, "\n") + "\n"
+	// keep only the definitions the formula uses (transitively): unrelated quantified axioms and
+	// recursive definitions make satisfiable queries come back "unknown"
+	all := append(append([]string{}, decls...), defs...)
+	nameOf := func(d string) string { return splitTop(d[1 : len(d)-1])[1] }
+	used := map[string]bool{}
+	toks := map[string]bool{}
+	tokensOf(formula, toks)
+	for changed := true; changed; {
+		changed = false
+		for _, d := range all {
+			n := nameOf(d)
+			if !used[n] && toks[n] {
+				used[n] = true
+				tokensOf(d, toks)
+				changed = true
+			}
+		}
+	}
+	var kd, kf []string
+	for _, d := range decls {
+		if used[nameOf(d)] {
+			kd = append(kd, d)
+		}
+	}
+	for _, d := range defs {
+		if used[nameOf(d)] {
+			kf = append(kf, d)
+		}
+	}
+	// non-recursive definitions may depend on each other: order by dependency
+	ordered := orderDefs(kf)
+	return strings.Join(kd, "\n") + "\n" + strings.Join(ordered, "\n") + "\n"
 }
 
 func orderDefs(defs []string) []string {
